@@ -64,7 +64,14 @@ fn strategy(conflicts: bool) -> impl Strategy<Value = Case> {
 			}
 		}
 		if mode % 16 == 0 {
-			a.ns[0] = "other".into();
+			// differing first namespaces: a fresh name on either side, or the first namespace of one side being the
+			// *second* namespace of the other (both sets stay well-formed; a lookup by name instead of by position finds it)
+			match (mode >> 4) % 4 {
+				0 => a.ns[0] = "other".into(),
+				1 => b.ns[0] = a.ns[1].clone(),
+				2 => a.ns[0] = b.ns[1].clone(),
+				_ => b.ns[0] = "other".into(),
+			}
 		}
 		Case { a, b, order }
 	})
